@@ -73,7 +73,7 @@ def make_data(seed, model, lead, K, D, ds):
         y = A.generic_data(seed, lead + (N, D), 'c02', model, K, D, complex_=cplx)
     else:
         y, _ = A.clustered_data(seed, lead, K, per, D, 'c02', ds, model, complex_=cplx,
-                                noise={'clustered': 0.3, 'tight': 0.1}.get(ds, 0.5))
+                                noise={'clustered': 0.3, 'tight': 0.1, 'small': 0.3}.get(ds, 0.5))
         if ds == 'big_outlier':
             # interleave the classes so that no start is aligned with the true partition
             y = np.ascontiguousarray(y[..., np.argsort(np.arange(N) % per, kind='stable'), :])
@@ -81,6 +81,9 @@ def make_data(seed, model, lead, K, D, ds):
             r = A.rng(seed, 'c02shift', model, K, D, ds)
             # real (Gaussian) data: a common offset, large compared with the spread for the 'tight' sets
             y = y + r.standard_normal(D) * (0.5 if ds != 'tight' else 1e6)
+    if ds == 'small' and not cplx:
+        # the same clustered set at a thousandth of the scale (likelihood monotonicity is scale free)
+        y = np.array(y) * 1e-3
     if ds in ('outlier', 'big_outlier') and not cplx:
         # one observation far away from every cluster (60 times the spread): its best log-density is more than
         # 745 below that of the other observations
@@ -282,8 +285,8 @@ def run_traj(key):
 def subchecks(tier, seed):
     thorough = tier == 'thorough'
     n = 50 if thorough else 12
-    datasets = ('clustered', 'unclustered', 'tight', 'outlier') if not thorough else \
-        ('clustered', 'unclustered', 'tight', 'loose', 'outlier')
+    datasets = ('clustered', 'unclustered', 'tight', 'outlier', 'small') if not thorough else \
+        ('clustered', 'unclustered', 'tight', 'loose', 'outlier', 'small')
     starts = (0, 1, 2)
 
     def cases():
@@ -301,10 +304,10 @@ def subchecks(tier, seed):
                             for K in (2, 3):
                                 for D in (2, 3):
                                     for ds in datasets:
-                                        if ds == 'outlier' and model not in ('gmm', 'gcacgmm'):
+                                        if ds in ('outlier', 'small') and model not in ('gmm', 'gcacgmm'):
                                             continue
                                         for st in starts:
-                                            if ds == 'outlier' and not thorough and (salk != 'none' or st):
+                                            if ds in ('outlier', 'small') and not thorough and (salk != 'none' or st):
                                                 continue
                                             if not thorough:
                                                 # quick: all pairs of (family, tying) with every data set;
